@@ -125,8 +125,9 @@ def bad_values(n):
 N_BAD_ITEM = 8
 
 
-def bad_item_assign(obj, target, n):
-    """`obj.argvals[k] = w` / `obj.values[k] = w` with a key or value of the wrong class (n-th variant).
+def bad_item_assign(obj, target, n, ior=False):
+    """`obj.argvals[k] = w` / `obj.values[k] = w` (or, with `ior`, `d = obj.argvals; d |= {k: w}`) with a key
+    or value of the wrong class (n-th variant).
     Returns False when the target is not a typed dictionary (values of a dense object)."""
     A, V, FD = _fd()
     da = lambda: A.DenseArgvals({"input_dim_0": grid(3, 0)})  # noqa: E731
@@ -137,19 +138,26 @@ def bad_item_assign(obj, target, n):
         k0 = next(iter(obj.argvals.keys()), "input_dim_0")
         key, val = [(k0, da()), (k0, [0.0, 1.0]), (0, grid(3, 0)), (k0, A.IrregularArgvals({0: da()})), (k0, None),
                     (k0, {"x": grid(2, 0)}), (1.5, grid(3, 0)), (k0, 2.0)][n]
-        obj.argvals[key] = val
+        _assign(obj.argvals, key, val, ior)
         return True
     if target == "a":
         k0 = next(iter(obj.argvals.keys()), 0)
         key, val = [(k0, A.IrregularArgvals({0: da()})), (k0, grid(3, 0)), (k0, {"input_dim_0": grid(3, 0)}), ("a", da()),
                     (k0, V.DenseValues(np.ones((2, 3)))), (k0, None), (k0, V.IrregularValues({0: np.ones(3)})), (0.5, da())][n]
-        obj.argvals[key] = val
+        _assign(obj.argvals, key, val, ior)
         return True
     k0 = next(iter(obj.values.keys()), 0)
     key, val = [(k0, [1.0, 2.0]), (k0, V.IrregularValues({0: np.ones(3)})), ("a", np.ones(3)), (k0, da()), (k0, None),
                 (0.5, np.ones(3)), (k0, 3.0), (k0, A.IrregularArgvals({0: da()}))][n]
-    obj.values[key] = val
+    _assign(obj.values, key, val, ior)
     return True
+
+
+def _assign(d, key, val, ior):
+    if ior:
+        d |= {key: val}
+    else:
+        d[key] = val
 
 
 _BAD_ARG = 0
